@@ -3,6 +3,7 @@
 //! prints for the Lean model).
 //!
 //! usage: rxharness < cases.txt > impl.out
+mod locktrace;
 mod pipe;
 mod sexp;
 mod suites;
@@ -45,8 +46,13 @@ pub struct Out {
 }
 
 impl Out {
+  /// Lines are written as they are produced, so that what a case printed before
+  /// it blocked is not lost when the watchdog ends the process.
   pub fn emit(&mut self, k: usize, body: String) {
-    self.lines.push(format!("{}.{} {}", self.id, k, body));
+    let stdout = io::stdout();
+    let mut w = stdout.lock();
+    let _ = writeln!(w, "{}.{} {}", self.id, k, body);
+    set_progress_event(k + 1);
   }
 }
 
@@ -66,12 +72,50 @@ fn run_case(case: &Case, out: &mut Out) {
   }
 }
 
+/// Progress marker for the watchdog: (case counter, case id, event index).
+static PROGRESS: std::sync::Mutex<(u64, String, usize)> = std::sync::Mutex::new((0, String::new(), 0));
+
+pub fn set_progress_event(k: usize) {
+  if let Ok(mut p) = PROGRESS.try_lock() {
+    p.2 = k;
+  }
+}
+
+/// A case that makes the real code block for ever (a std Mutex re-locked by its
+/// holder, a lost wakeup) must not hang the check: if no case finishes for
+/// `RXH_STALL_MS` (default 4000) the watchdog prints `<id>.<k> HANG` for the case
+/// being processed and ends the process with status 17; the runner re-submits
+/// the cases that had not been reached.
+fn spawn_watchdog() {
+  let limit = std::env::var("RXH_STALL_MS").ok().and_then(|v| v.parse().ok()).unwrap_or(4000u64);
+  std::thread::spawn(move || {
+    let mut last = 0u64;
+    let mut since = std::time::Instant::now();
+    loop {
+      std::thread::sleep(std::time::Duration::from_millis(200));
+      let (n, id, k) = {
+        let p = PROGRESS.lock().unwrap();
+        (p.0, p.1.clone(), p.2)
+      };
+      if n != last {
+        last = n;
+        since = std::time::Instant::now();
+      } else if !id.is_empty() && since.elapsed().as_millis() as u64 > limit {
+        let out = io::stdout();
+        let mut w = out.lock();
+        let _ = writeln!(w, "{}.{} HANG", id, k);
+        let _ = w.flush();
+        std::process::exit(17);
+      }
+    }
+  });
+}
+
 fn main() {
   // silence the default panic message: panics are outcomes here
   std::panic::set_hook(Box::new(|_| {}));
+  spawn_watchdog();
   let stdin = io::stdin();
-  let stdout = io::stdout();
-  let mut w = io::BufWriter::new(stdout.lock());
   let mut cur: Option<Case> = None;
   for line in stdin.lock().lines() {
     let line = line.unwrap();
@@ -97,18 +141,26 @@ fn main() {
       "ev" => cur.as_mut().unwrap().events.push(parse_all(rest)),
       "end" => {
         let case = cur.take().unwrap();
+        {
+          let mut p = PROGRESS.lock().unwrap();
+          p.0 += 1;
+          p.1 = case.id.clone();
+          p.2 = 0;
+        }
         let mut out = Out { id: case.id.clone(), lines: vec![], cur: 0 };
         let r = catch_unwind(AssertUnwindSafe(|| run_case(&case, &mut out)));
         if r.is_err() {
           let k = out.cur;
           out.emit(k, "PANIC".to_string());
         }
-        for l in out.lines {
-          writeln!(w, "{}", l).unwrap();
+        let _ = io::stdout().flush();
+        {
+          let mut p = PROGRESS.lock().unwrap();
+          p.0 += 1;
+          p.1 = String::new();
         }
       }
       key => cur.as_mut().unwrap().fields.push((key.to_string(), parse_all(rest))),
     }
   }
-  w.flush().unwrap();
 }
